@@ -20,7 +20,8 @@ ScOf(j) == [single   |-> [n \in Node |-> ToSet(j.single[n])],
             sliceOpt |-> [n \in Node |-> j.sliceOpt[n]],
             lazy     |-> ToSet(j.lazy),
             wrap     |-> [n \in Node |-> j.wrap[n]],
-            fail     |-> [n \in Node |-> j.fail[n]]]
+            fail     |-> [n \in Node |-> j.fail[n]],
+            procs    |-> [p \in 1..Len(j.procs) |-> j.procs[p]]]
 
 TraceScenarios == {ScOf(Trace[1].sc)}
 
@@ -62,13 +63,14 @@ TRunReturn == /\ IsEv("runReturn") /\ stack = <<>> /\ ~E.panic
 TLookupReturn == /\ IsEv("lookupReturn") /\ stack = <<>> /\ status \in {"done", "failed"}
                  /\ E.ok => LET v == IF L1[E.n] # NoV THEN L1[E.n] ELSE L2[E.n] IN v # NoV /\ E.res = Proj(v)
                  /\ UNCHANGED vars
+TProcInit == IsEv("procInit") /\ ProcInit(E.n)
 TReset == /\ IsEv("scenario")
           /\ ResetTo(ScOf(E.sc))
 
 TraceInit == l = 2 /\ Init
 TraceNext ==
   /\ \/ TGet \/ TCreateBegin \/ TAddFactory \/ TResolve \/ TBefore \/ TAps \/ TInit \/ TAfter
-     \/ TCheck \/ TCreateEnd \/ TRunReturn \/ TLookupReturn \/ TReset
+     \/ TCheck \/ TCreateEnd \/ TRunReturn \/ TLookupReturn \/ TProcInit \/ TReset
   /\ (E.ev # "scenario" => StateMatchesP(E.st))
 TraceSpec == TraceInit /\ [][TraceNext]_<<vars, l>>
 
